@@ -22,6 +22,24 @@ fn viol(rep: &mut Report, args: &Args, what: &str, k: usize, seq: &[u8], pos: us
 
 /// Slide over `seq`, compare every full window with the oracle. Returns (windows, palindromes, resets).
 fn check_seq(rep: &mut Report, args: &Args, k: usize, seq: &[u8], case: &str) -> (u64, u64, u64) {
+    // a panic inside the k-mer code (e.g. a shift overflow at k = 32 in a build with overflow
+    // checks) is a violation, not a harness crash
+    let mut tmp = Report::new();
+    let r = std::panic::catch_unwind(std::panic::AssertUnwindSafe(|| check_seq_inner(&mut tmp, args, k, seq, case)));
+    match r {
+        Ok(x) => {
+            rep.merge(tmp);
+            x
+        }
+        Err(p) => {
+            let msg = p.downcast_ref::<String>().cloned().or_else(|| p.downcast_ref::<&str>().map(|s| s.to_string())).unwrap_or_default();
+            viol(rep, args, &format!("panic: k-mer code panicked (build with {}): {}", if cfg!(debug_assertions) { "overflow checks" } else { "optimisations" }, msg), k, seq, 0, case);
+            (0, 0, 0)
+        }
+    }
+}
+
+fn check_seq_inner(rep: &mut Report, args: &Args, k: usize, seq: &[u8], case: &str) -> (u64, u64, u64) {
     let mut km = Kmer::new(k as u32, KmerMode::Canonical);
     let mut windows = 0u64;
     let mut pal = 0u64;
@@ -124,6 +142,7 @@ fn all_strings(alpha: u8, len: usize, f: &mut dyn FnMut(&[u8])) {
 }
 
 pub fn run(args: &Args, rep: &mut Report) {
+    std::panic::set_hook(Box::new(|_| {}));
     let miri = cfg!(miri);
     let t = args.tier_thorough;
     let mut windows = 0u64;
